@@ -715,7 +715,10 @@ impl CircuitBuilder {
     ) -> CachedPanicResult {
         let result = self.mux_uncached_panic(condition, t, f);
         let mut cache = HashMap::new();
-        for k in cache_t.keys().chain(cache_f.keys()) {
+        // Merge the cached panics in ascending order of their keys (not in hash order), so that
+        // the gates emitted here, and thus the circuit, do not depend on the hash seed.
+        let keys: std::collections::BTreeSet<&usize> = cache_t.keys().chain(cache_f.keys()).collect();
+        for k in keys {
             match (cache_t.get(k), cache_f.get(k)) {
                 (None, None) => {}
                 (None, Some(result)) | (Some(result), None) => {
